@@ -66,6 +66,33 @@ CLAIMED = {
                      "points, with and without the flusher firing at that instant; every sidecar LoadSidecar accepts afterwards is compared chunk by chunk with the source.",
                 note=BASE_TB + "Modelled not verified: process-kill semantics (completed syscalls persist; no power loss, the code has no fsync); the 1 s flusher is represented by FlushAllFlushers() at hook "
                      "points; atomicity of rename(2); writers write CRC-verified source bytes."),
+    "C01": dict(category="proof", design="DESIGN.md §4 C01",
+                technique="Lean 4 inductive invariant of a per-file transition system (sends, corruption, any-order delivery, FileEnd carrying the frame count, finalisation rule); end-to-end runs of the real endpoints over netsim/mock/QUIC",
+                text="C01_file_fidelity: in every reachable state of the per-file system - any interleaving of chunk sends, in-flight corruption, deliveries in any order, duplicates, late frames, FileEnd overtaking "
+                     "frames, fresh or resumed from a sound or highest-chunk-damaged state - a file finalised ok holds the source bytes in every chunk. The sender is constrained only by what C17 proves. Tie: the real "
+                     "Send/RecvManifestMultiStream run on generated trees (sizes around chunk boundaries, nesting, empty dirs, odd names) x chunk sizes x 1-8 streams x 1-4 connections x root/scan modes x resume states over "
+                     "netsim with QUIC stream visibility, the repo mock and real loopback QUIC; mutual success must imply an identical tree.",
+                note=BASE_TB + "Modelled not verified: the lift from the per-file system to the manifest (distinct file keys; frames carry their key), goroutine-level atomicity, quic-go, the kernel file system; "
+                     "the tie to the closures of multistream.go is by end-to-end runs (sampled schedules), not by translation."),
+    "C02": dict(category="proof", design="DESIGN.md §4 C02",
+                technique="Lean 4 decision lemmas for both endpoints' return rules + per-file corruption/finality theorems; fault injection at byte positions, cancellation, source/output faults on the real endpoints",
+                text="Whichever select case fires, the receiver returns success only with every file finalised ok; the sender only with every file confirmed; a corrupted frame fails its file and verdicts are final; "
+                     "with C01_file_fidelity a successful receiver holds an identical tree. Tie: netsim injects graceful close by either side and abrupt loss at byte positions of every stream and direction, payload/CRC bit flips "
+                     "(also with the failing reader held so that the peer's close races its error), cancellation of either endpoint at many instants incl. idle phases, source shrink/removal and obstructed output paths; "
+                     "oracle: no hang, receiver ok => identical tree, sender ok => identical tree.",
+                note=BASE_TB + "Modelled not verified: the decision functions are transcriptions of the main loop / sender tail tied by the fault runs; wall-clock 'bounded time' is a 5 s watchdog; netsim's error texts mirror quic-go's."),
+    "C03": dict(category="proof", design="DESIGN.md §4 C03",
+                technique="Lean 4 progress + strictly decreasing measure on a liveness abstraction (lazily accepted data streams), name and budget theorems; watchdog grid on netsim and real QUIC",
+                text="C03_completes: for every number of announced streams n>=1 and every chunk count (incl. 0) no reachable non-final state of the abstraction is stuck and every step decreases a natural measure, so every run "
+                     "ends with FileDone received. C03_names: validateRelPath accepts exactly the legal relative names. C03_budget: 1..8 streams after normalisation, >= one per connection. Tie: budget and name differentials; the real "
+                     "endpoints on the grid files {0,1,2,5} x chunks/file {0,1,2,5} x streams {1,2,4,8} x connections {1,2,4} x resume {off,on,partial} over netsim with QUIC stream-visibility semantics and sampled over real loopback QUIC.",
+                note=BASE_TB + "Modelled not verified: the abstraction covers one file on one connection (multi-file/multi-connection only by grid runs); timers/polling are not steps; 'bounded time' is a 6-8 s watchdog."),
+    "C04": dict(category="proof", design="DESIGN.md §4 C04",
+                technique="Lean 4 theorems composing the crash invariant (C05) with per-file fidelity (C01) over chains of interrupted runs; SIGKILL chains of the real transfer followed by a resumed run",
+                text="C04_resume / C04_chain: from any on-disk state a killed run can leave (sidecar marks only good chunks: C05_inv) the resumed run's ok-finalised files are identical to the source, for any number of "
+                     "interrupted runs. Tie: chains of 1-3 SIGKILLs at random hits of 8 hook points (receiver and sender side, with/without the flusher firing) in a child process, then an uninterrupted resumed run into the same "
+                     "directory: both endpoints nil, identical tree, and at most (unmarked chunks + one re-send per file) frames sent - finished work is not requested again.",
+                note=BASE_TB + "Modelled not verified: process-kill semantics; sender and receiver die together in the child; 'advertised = on disk' is observed through the number of frames the resumed run sends."),
 }
 PENDING_REASON = "check not built yet in this round (design in DESIGN.md §4); not claimed until its theorem and tie exist"
 NOT_APPLICABLE = {}
